@@ -194,10 +194,18 @@ def compare_sequence(ast, packages, texts):
             schema = ZConfig.loadSchema(main)
         except Exception as e:  # noqa
             return [(None, [("application-schema-rejected", repr(e))])]
+        import ZConfig.loader
+        shared = ZConfig.loader.ConfigLoader(schema)      # one loader object for the whole sequence
         for text in texts:
             ref = refload.ref_load(ast, {MAIN: text}, MAIN, packages=packages)
             got = loadcheck.real_load(schema, text, url=MAIN)
+            again = loadcheck.real_load_with(shared, text, MAIN)
             fl = []
+            if ref.kind != "unspec" and again[0] != got[0] and "internal" not in (again[0], got[0]):
+                fl.append(("reused-loader-differs:%s-vs-%s" % (again[0], got[0]),
+                           "the same text through a loader object that served earlier loads of this sequence"))
+            elif again[0] == "ok" and got[0] == "ok" and digest.first_diff(digest.digest(got[1]), digest.digest(again[1])):
+                fl.append(("reused-loader-differs:tree", ""))
             if ref.kind == "unspec":
                 pass
             elif got[0] == "internal":
